@@ -773,6 +773,16 @@ func TestVerifC15Engine(t *testing.T) {
 				}
 			}
 			x.searchRound("reinforced")
+			// compression rebuilds the index: the memory configuration (and with it every decay
+			// law) must come through
+			if metric == distance.Euclidean && prec == distance.Float32 && r.Chance(0.3) {
+				cs.Op("VCompress(%s, float16)", x.idx)
+				if err := x.e.VCompress(x.idx, distance.Float16); err != nil {
+					cs.Fail("VCompress failed: %v", err)
+				}
+				x.ctx.Count("compressions", 1)
+				x.searchRound("compressed")
+			}
 			restarted := false
 			if r.Chance(0.2) {
 				x.close()
